@@ -65,6 +65,8 @@ type Scenario struct {
 	CancelU int           `json:"cancelu,omitempty"`
 	CancelD int           `json:"canceld,omitempty"`
 	G       int           `json:"g,omitempty"` // simultaneous executions
+	// CustomCtx: the directive receives a hand-written context.Context (ManualCtx)
+	CustomCtx bool `json:"customctx,omitempty"`
 
 	// Gate scenario (C11 "as soon as the predicate's own inputs are
 	// available"): unit GateU-1 parks at its start until unit GateFor-1 has
@@ -612,4 +614,46 @@ func Lookup(name string) Program { return registry[name] }
 func After[T any](v T, f func()) T {
 	f()
 	return v
+}
+
+// ManualCtx is a hand-written context.Context (its own Done channel and Err),
+// not derived from one of the context package's constructors: the standard
+// library can only follow its cancellation through a helper goroutine, so a
+// directive that derives a child context from it sees the cancellation late.
+type ManualCtx struct {
+	parent context.Context
+	mu     sync.Mutex
+	done   chan struct{}
+	err    error
+}
+
+// NewManualCtx returns a live hand-written context carrying parent's values.
+func NewManualCtx(parent context.Context) *ManualCtx {
+	return &ManualCtx{parent: parent, done: make(chan struct{})}
+}
+
+// Deadline implements context.Context.
+func (c *ManualCtx) Deadline() (time.Time, bool) { return time.Time{}, false }
+
+// Done implements context.Context.
+func (c *ManualCtx) Done() <-chan struct{} { return c.done }
+
+// Err implements context.Context.
+func (c *ManualCtx) Err() error {
+	c.mu.Lock()
+	defer c.mu.Unlock()
+	return c.err
+}
+
+// Value implements context.Context.
+func (c *ManualCtx) Value(k interface{}) interface{} { return c.parent.Value(k) }
+
+// Cancel cancels the context; Err reports context.Canceled from then on.
+func (c *ManualCtx) Cancel() {
+	c.mu.Lock()
+	defer c.mu.Unlock()
+	if c.err == nil {
+		c.err = context.Canceled
+		close(c.done)
+	}
 }
